@@ -23,3 +23,18 @@ def wrap_floor_half(d, cell):
 
 def wrap_floor(d, cell):
     return d - np.floor(d / cell) * cell
+
+
+def pair_differences_rows(X, Y):
+    # (control) all pairwise differences, X-major: row i * len(Y) + j holds X[i] - Y[j]
+    return np.concatenate([x - Y for x in X])
+
+
+def pair_differences_stacked(X, Y):
+    # (control) the same table built column block by column block
+    return np.stack([X - y for y in Y], axis=1).reshape(-1, X.shape[1])
+
+
+def pair_differences_other_order(X, Y):
+    # (control) Y-major order: row j * len(X) + i holds X[i] - Y[j] - NOT the same table
+    return np.concatenate([X - y for y in Y])
